@@ -1452,4 +1452,49 @@ example : calcBESet demo8 [] (effReserved 1 [0, 1]) (effSysExcl 6 [6, 7]) = [2, 
     calcBESet demo8 [] (effReserved 2 [0, 1]) (effSysExcl 2 [6, 7]) = [0, 1, 2, 3, 4, 5] ∧
     calcBESet demo8 [] (effReserved 1 [0, 1]) (effSysExcl 1 [6, 7]) = [2, 3, 4, 5] := by decide
 
+/-! ### 17. the applyPolicy of the node-reservation annotation (ext6)
+
+`helpers.GetNodeResourceReserved` is the statement's "system — at least the node reservation" term.  The annotation can
+carry `applyPolicy: ReservedCPUsOnly`, which tells the SCHEDULER not to trim the node allocatable; the cores are reserved
+all the same, so the koordlet budget must subtract them under every policy. -/
+
+/-- the reserved amount does not depend on the policy spelling. -/
+theorem anno_policy_irrelevant (p₁ p₂ kind resMilli nCpus : Int) :
+    annoReservedP p₁ kind resMilli nCpus = annoReservedP p₂ kind resMilli nCpus := rfl
+
+/-- the node reservation is at least the annotation's amount (and never negative). -/
+theorem nodeReserved_ge_anno (cap alloc anno : Int) :
+    anno ≤ nodeReserved cap alloc anno ∧ 0 ≤ nodeReserved cap alloc anno := by
+  unfold nodeReserved; simp only []; split <;> split <;> omega
+
+/-- under EVERY applyPolicy the (unfloored) budget leaves out at least the annotation's amount, up to the one milli-CPU of
+    the float round trip: budget <= capacity x threshold - non-BE pods - non-BE host apps - (annotation amount - 1). -/
+theorem budget_reserves_annotation (f : FloatOps) (hf : FloatOK f) (p cap alloc kind resMilli nCpus thr node : Int)
+    (pods : List PodU) (apps : List AppU) (hc : 0 ≤ cap) (ht : 0 ≤ thr) :
+    budget f cap alloc (annoReservedP p kind resMilli nCpus) thr none node pods apps
+      ≤ cap * thr / 100 - podsCounted pods - appsCounted apps - (annoReserved kind resMilli nCpus - 1) := by
+  unfold budget
+  rw [budget_eq f cap thr none _ _ _ _ _ _ hc ht]
+  simp only []
+  have hR := nodeReserved_ge_anno cap alloc (annoReservedP p kind resMilli nCpus)
+  have hs := (system_term f hf node (podsAll pods) (appsAll apps) _ hR.2).1
+  have : annoReservedP p kind resMilli nCpus = annoReserved kind resMilli nCpus := rfl
+  omega
+
+/-- the seeded shape "the annotation helper returns nothing under ReservedCPUsOnly" … -/
+def annoReservedPolicyAware (policy kind resMilli nCpus : Int) : Int :=
+  if policy == 3 then 0 else annoReserved kind resMilli nCpus
+
+/-- … is NOT what the statement asks for: 11 CPUs, kubelet reservation 500m, annotation `reservedCPUs: 0-3` with
+    `applyPolicy: ReservedCPUsOnly`, system usage 1 CPU, threshold 65 %: budget 6150m instead of 3150m. -/
+theorem policy_aware_reservation_counterexample :
+    ¬ (∀ p cap alloc kind resMilli nCpus thr node : Int, 0 ≤ cap → 0 ≤ thr →
+        budget exactOps cap alloc (annoReservedPolicyAware p kind resMilli nCpus) thr none node [] []
+          ≤ cap * thr / 100 - (annoReserved kind resMilli nCpus - 1)) := by
+  intro h
+  exact absurd (h 3 11000 10500 2 100 4 65 1000 (by decide) (by decide)) (by decide)
+
+/-- the model on that input, for each of the five policy spellings: 3150m. -/
+example : ∀ p ∈ [0, 1, 2, 3, 4], budget exactOps 11000 10500 (annoReservedP p 2 100 4) 65 none 1000 [] [] = 3150 := by decide
+
 end KoordVerif.C10
